@@ -52,8 +52,8 @@ BASE_ASSUME = [
 PROPS = {
     "C01": {
         "title": "The store behaves as a key-value map for every operation sequence",
-        "rules": [k2.p3_publish_after_append, k3.s1_roles, k2m.p4_merge_per_entry_order, k2m.p5_merge_outputs_before_unlink, k5.p17_read_under_index_guard, k2.p14_rollover_test, k2.p6b_pool_filled, k3.s2_live_vs_recovery, k2m.s7_s8_merge_sets, k8.s12_config_setters, k9.s15_position_tracking, k9.s14_reader_cache_keying, k9.s21_forwarding, k9.s22_one_codec, k9.p21_new_active_datafile, k1.w1_file_mutation_api, controls.control("W1"), k10.s24_record_symmetry],
-        "decides": "put publishes exactly the appended record's location, only after a successful append, with the id of the file the bytes went to; delete appends a tombstone, removes the key and reports presence; (fileid,len,pos) keep their roles through every call and struct; merge re-points an entry only to the bytes it just copied, at the offset before advancing, resetting the offset per output; the read happens under the index guard; rollover test after each append; a merge rotates the active file above its outputs and removes inputs oldest first; the reader pool is filled to its capacity (also for concurrency 0); put/delete perform exactly the live-path index effects; copy set = removed set; Config setters store what they are given; positions are tracked by the byte counts really transferred and an append reports (position before, position after − before); the reader cache is keyed by the file id asked for; the forwarding layers (trait impl, Handle::get, PooledReader, Reader::get → record.value | None) forward; writer and readers use one bincode configuration; new_active_datafile always switches to the file of the id it was given; data and merge output files are created exclusively (create_new): an id collision after a failed merge fails loudly instead of appending to a foreign file; the on-disk record types written are the types read, and each record's Serialize and Deserialize sides emit and decode the same fields, of the same types, in the same order, unconditionally (bincode is positional)",
+        "rules": [k2.p3_publish_after_append, k3.s1_roles, k2m.p4_merge_per_entry_order, k2m.p5_merge_outputs_before_unlink, k5.p17_read_under_index_guard, k2.p14_rollover_test, k2.p6b_pool_filled, k3.s2_live_vs_recovery, k2m.s7_s8_merge_sets, k8.s12_config_setters, k9.s15_position_tracking, k9.s14_reader_cache_keying, k9.s21_forwarding, k9.s22_one_codec, k9.p21_new_active_datafile, k1.w1_file_mutation_api, controls.control("W1"), k10.s24_record_symmetry, k10.t2_no_narrowing],
+        "decides": "put publishes exactly the appended record's location, only after a successful append, with the id of the file the bytes went to; delete appends a tombstone, removes the key and reports presence; (fileid,len,pos) keep their roles through every call and struct; merge re-points an entry only to the bytes it just copied, at the offset before advancing, resetting the offset per output; the read happens under the index guard; rollover test after each append; a merge rotates the active file above its outputs and removes inputs oldest first; the reader pool is filled to its capacity (also for concurrency 0); put/delete perform exactly the live-path index effects; copy set = removed set; Config setters store what they are given; positions are tracked by the byte counts really transferred and an append reports (position before, position after − before); the reader cache is keyed by the file id asked for; the forwarding layers (trait impl, Handle::get, PooledReader, Reader::get → record.value | None) forward; writer and readers use one bincode configuration; new_active_datafile always switches to the file of the id it was given; data and merge output files are created exclusively (create_new): an id collision after a failed merge fails loudly instead of appending to a foreign file; the on-disk record types written are the types read, and each record's Serialize and Deserialize sides emit and decode the same fields, of the same types, in the same order, unconditionally (bincode is positional); no narrowing integer cast or sub-64-bit location field in the storage layer",
         "not_decided": "map semantics over histories as behaviour; that len/pos VALUES are right (position arithmetic inside BufWriterWithPos), LRU cache keying, value equality",
     },
     "C02": {
@@ -161,8 +161,8 @@ PROPS = {
     },
     "C19": {
         "title": "Per-file live/dead accounting always matches the files' real contents",
-        "rules": [k3.s3_displaced_accounting, k3.s2_live_vs_recovery, k2m.s7_s8_merge_sets, k9.s13_counter_arithmetic, k9.s2c_unconditional_counting, k9.s7b_merge_counts_in_output, k2.p3_publish_after_append, k5.ghint_hint_validation],
-        "decides": "every displaced index entry is routed to overwrite(prev.len) on the file it lived in; every append is counted on the file it went to (before rollover) with the appended length; the rebuild counts like the live path; merge counts each copied entry live on the output it went to, looked up per entry; add_live/add_dead/overwrite change exactly the counters they name by 1 resp. the given byte count, on a single straight path; every record (also a tombstone of an absent key) is counted on the file it lies in on every path, in the writer and in the recovery scan alike; a merge books each copied entry on the output it was copied into (the id is not rolled over in between); the index (and with it the accounting of the displaced entry) changes only after the record was appended: a failed delete leaves index and counters untouched; a hint entry rejected by the extent test touches neither the index nor the per-file statistics (no phantom live keys)",
+        "rules": [k3.s3_displaced_accounting, k3.s2_live_vs_recovery, k2m.s7_s8_merge_sets, k9.s13_counter_arithmetic, k9.s2c_unconditional_counting, k9.s7b_merge_counts_in_output, k2.p3_publish_after_append, k5.ghint_hint_validation, k10.t2_no_narrowing],
+        "decides": "every displaced index entry is routed to overwrite(prev.len) on the file it lived in; every append is counted on the file it went to (before rollover) with the appended length; the rebuild counts like the live path; merge counts each copied entry live on the output it went to, looked up per entry; add_live/add_dead/overwrite change exactly the counters they name by 1 resp. the given byte count, on a single straight path; every record (also a tombstone of an absent key) is counted on the file it lies in on every path, in the writer and in the recovery scan alike; a merge books each copied entry on the output it was copied into (the id is not rolled over in between); the index (and with it the accounting of the displaced entry) changes only after the record was appended: a failed delete leaves index and counters untouched; a hint entry rejected by the extent test touches neither the index nor the per-file statistics (no phantom live keys); counters and location fields are 64 bits wide and no source-level cast in the storage layer narrows an integer",
         "not_decided": "equality with ground truth over histories; underflow of live_keys",
     },
     "C20": {
